@@ -776,5 +776,63 @@ def rule_r7(ctx) -> RuleResult:
     return rr
 
 
+def rule_r8(ctx) -> RuleResult:
+    """formatnum and its inverse read the locale's separators and grouping from data/<lang>/localization.json.  Several shipped
+    locales have legitimate *falsy* values there (`"grouping_separator": ""` -- no digit grouping; `"grouping_method": []`).  A
+    default supplied through truthiness (`loaded.get(k) or D`, `x if x else D`) replaces those by the English default, so those
+    locales group with "," although their decimal point is "," too and formatnum|R no longer inverts formatnum (seed C18-8A).
+    Decided from the data: for every such construct on a localisation key, no shipped file may hold a falsy value for it."""
+    from ..core.data import DataFiles
+
+    rr = RuleResult("C18.R8", "no truthiness default on a localisation key that is legitimately empty in a shipped locale", min_instances=1)
+    data = DataFiles(ctx.index)
+    if len(data.localization) < 20:
+        raise AnalysisError("only {} localization.json files found".format(len(data.localization)))
+    keys = set()
+    for d in data.localization.values():
+        keys |= set(d)
+    falsy = {k: sorted(lang for lang, d in data.localization.items() if k in d and not d[k]) for k in keys}
+    rr.instances["localisation_keys"] = sorted(keys)
+    rr.instances["keys_with_falsy_values"] = {k: v for k, v in falsy.items() if v}
+
+    def key_read(e):
+        """the localisation key a sub-expression reads (`X.get("k"...)`, `X["k"]`), or None"""
+        if isinstance(e, ast.Call) and isinstance(e.func, ast.Attribute) and e.func.attr == "get" and e.args \
+                and isinstance(e.args[0], ast.Constant) and e.args[0].value in keys:
+            return e.args[0].value
+        if isinstance(e, ast.Subscript) and isinstance(e.slice, ast.Constant) and e.slice.value in keys:
+            return e.slice.value
+        return None
+
+    n = 0
+    for dotted, m, f in ctx.index.all_functions():
+        if dotted.split(".")[0] not in ("core", "parserfns"):
+            continue
+        reads = [x for x in walk_no_nested(f) if key_read(x) is not None]
+        if not reads:
+            continue
+        ctx.touched(dotted, m.relpath)
+        n += len(reads)
+        for x in walk_no_nested(f):
+            k = None
+            if isinstance(x, ast.BoolOp) and isinstance(x.op, ast.Or) and len(x.values) >= 2:
+                k = key_read(x.values[0])
+            elif isinstance(x, ast.IfExp) and key_read(x.test) is not None and key_read(x.body) == key_read(x.test):
+                k = key_read(x.test)
+            if k is None:
+                continue
+            if falsy.get(k):
+                rr.bad(Finding("C18.R8", m.relpath, dotted, unparse(x)[:70],
+                               "the default for localisation key {!r} is chosen by truthiness, but {} shipped locale(s) ({}) define it as an empty "
+                               "value on purpose: there the English default takes over and formatnum / formatnum|R no longer agree".format(
+                                   k, len(falsy[k]), ", ".join(falsy[k][:8])), x.lineno))
+            else:
+                rr.ok(dotted, "truthiness default on {!r}: no shipped locale has a falsy value".format(k))
+    if n == 0:
+        raise AnalysisError("no read of a localisation key found in core/parserfns")
+    rr.ok("core", "{} reads of localisation keys examined".format(n))
+    return rr
+
+
 def run(ctx) -> list:
-    return [rule_r1(ctx), rule_r2(ctx), rule_r3(ctx), rule_r4(ctx), rule_r5(ctx), rule_r6(ctx), rule_r7(ctx)]
+    return [rule_r1(ctx), rule_r2(ctx), rule_r3(ctx), rule_r4(ctx), rule_r5(ctx), rule_r6(ctx), rule_r7(ctx), rule_r8(ctx)]
